@@ -244,6 +244,17 @@ __CPROVER_ensures(b < RLC_BN_SIZE * RLC_DIG ==> (VC_BN_NF(a) && vc_sval(a) == ((
 __CPROVER_ensures(b >= RLC_BN_SIZE * RLC_DIG ==> g_ctx.code == RLC_ERR)
 ;
 
+/* set or clear one bit of the magnitude; a position beyond the precision is a precision error */
+void bn_set_bit(bn_t a, uint_t bit, int value)
+__CPROVER_requires(VC_BN_FRESH(a) && VC_BN_NF(a) && (value == 0 || value == 1) && bit <= 2 * RLC_BN_SIZE * RLC_DIG)
+__CPROVER_requires(bit < RLC_BN_SIZE * RLC_DIG || g_may_throw)
+VC_ASSIGNS(__CPROVER_object_whole(a), g_ctx.code, g_ctx.last, g_ctx.caught, g_ctx.error, g_ctx.number, g_thrown)
+__CPROVER_ensures(bit < RLC_BN_SIZE * RLC_DIG ==> (g_ctx.code == __CPROVER_old(g_ctx.code) && VC_BN_NF(a) && \
+	vc_mag(a) == (value ? (VC_MAG_OLD(a) | (((vc_wide)1) << bit)) : (VC_MAG_OLD(a) & ~(((vc_wide)1) << bit))) && \
+	(a->sign == __CPROVER_old(a->sign) || vc_mag(a) == 0)))
+__CPROVER_ensures(bit >= RLC_BN_SIZE * RLC_DIG ==> (g_ctx.code == RLC_ERR || value == 0))
+;
+
 /* ---- shifts ----------------------------------------------------------------------------------------------------------- */
 #ifndef VC_SHAPE_bn_dbl
 #define VC_SHAPE_bn_dbl VC_S2_GEN
